@@ -355,22 +355,70 @@ func (flogs *fileLogs) StreamAll(dataID, version dvid.UUID, ch chan storage.LogM
 	return nil
 }
 
+// discardTornTail truncates a log file that ends with an incomplete record (a process died
+// inside an append, between or within the header and payload writes).  Without this, records
+// appended by the next process would sit behind the torn bytes: readers take them for the
+// payload of the torn record (an invented record) or drop them.
+func discardTornTail(filename string) error {
+	f, err := os.OpenFile(filename, os.O_RDWR, 0755)
+	if err != nil {
+		if os.IsNotExist(err) {
+			return nil
+		}
+		return err
+	}
+	defer f.Close()
+	fi, err := f.Stat()
+	if err != nil {
+		return err
+	}
+	fileSize := fi.Size()
+	hdr := make([]byte, 6)
+	var pos int64
+	for pos+6 <= fileSize {
+		if _, err := f.ReadAt(hdr, pos); err != nil {
+			return err
+		}
+		next := pos + 6 + int64(binary.LittleEndian.Uint32(hdr[2:]))
+		if next > fileSize {
+			break
+		}
+		pos = next
+	}
+	if pos < fileSize {
+		dvid.Criticalf("filelog %q ends with a torn record at position %d; discarding %d bytes before appending\n", filename, pos, fileSize-pos)
+		if err := f.Truncate(pos); err != nil {
+			return err
+		}
+		return f.Sync()
+	}
+	return nil
+}
+
 func (flogs *fileLogs) getWriteLog(topic string) (fl *fileLog, err error) {
 	var found bool
 	flogs.RLock()
 	fl, found = flogs.files[topic]
 	flogs.RUnlock()
 	if !found {
+		// opened under the write lock, so that no other goroutine is appending to this
+		// file while a torn tail is looked for
+		flogs.Lock()
+		defer flogs.Unlock()
+		if fl, found = flogs.files[topic]; found {
+			return
+		}
 		filename := filepath.Join(flogs.path, topic)
+		if err = discardTornTail(filename); err != nil {
+			return
+		}
 		var f *os.File
 		f, err = os.OpenFile(filename, os.O_WRONLY|os.O_CREATE|os.O_APPEND|os.O_SYNC, 0755)
 		if err != nil {
 			return
 		}
 		fl = &fileLog{File: f}
-		flogs.Lock()
 		flogs.files[topic] = fl
-		flogs.Unlock()
 	}
 	return
 }
